@@ -9,6 +9,7 @@ from ckl.values import (
     ValueControlBreak,
     ValueControlContinue,
     ValueControlReturn,
+    ValueInt,
     ValueList,
     ValueMap,
     ValueObject,
@@ -536,7 +537,9 @@ class NodeDeref:
                 i = i + len(s)
             if i < 0 or i >= len(s):
                 raise CklRuntimeError(
-                    ValueString("ERROR"), f"Index out of bounds {i}", self.pos
+                    ValueString("ERROR"),
+                    f"Index out of bounds {ValueInt(i)}",
+                    self.pos,
                 )
             return ValueString(s[i])
 
@@ -553,7 +556,9 @@ class NodeDeref:
                 i = i + len(lst)
             if i < 0 or i >= len(lst):
                 raise CklRuntimeError(
-                    ValueString("ERROR"), f"Index out of bounds {i}", self.pos
+                    ValueString("ERROR"),
+                    f"Index out of bounds {ValueInt(i)}",
+                    self.pos,
                 )
             return lst[i]
 
@@ -619,7 +624,9 @@ class NodeDerefAssign:
                 i = i + len(s)
             if i < 0 or i >= len(s):
                 raise CklRuntimeError(
-                    ValueString("ERROR"), f"Index out of bounds {i}", self.pos
+                    ValueString("ERROR"),
+                    f"Index out of bounds {ValueInt(i)}",
+                    self.pos,
                 )
             if not value.isString():
                 raise CklRuntimeError(
@@ -637,7 +644,9 @@ class NodeDerefAssign:
                 i = i + len(lst)
             if i < 0 or i >= len(lst):
                 raise CklRuntimeError(
-                    ValueString("ERROR"), f"Index out of bounds {i}", self.pos
+                    ValueString("ERROR"),
+                    f"Index out of bounds {ValueInt(i)}",
+                    self.pos,
                 )
             lst[i] = value
             return container
